@@ -28,7 +28,7 @@ ASSUMPTIONS = ["a result counts as available when its batch's completion has bee
 
 FLAVOURS = ["T", "T", "L", "L", "G", "Gm"]
 N_RUNS = {"quick": 2500, "thorough": 100000}
-FINALS = ["exhaust", "exhaust", "close", "close", "drop", "drop_other", "overlap"]
+FINALS = ["exhaust", "exhaust", "close", "close", "drop", "drop_other", "overlap", "exit_overlap"]
 
 
 def gen_case(rng):
@@ -172,6 +172,26 @@ def consumer(w, s, p, c, gen, rec):
         rec["drop_other"] = (box, done, dropper)
         rec["defer_over"] = True
         rec["outcome"] = {"kind": "dropped_other", "t": s.now}
+    elif final == "exit_overlap":
+        # leave the `with` block while the generator is unfinished, then call the object again
+        incomplete = w.cb_started_tasks[c] < call["n"] or w.pulled[c] < call["n"]
+        rec["overlap_incomplete"] = incomplete
+        if w.case.get("managed"):
+            try:
+                p.__exit__(None, None, None)
+            except BaseException as e:  # noqa
+                rec["notes"].append(("exit_raised", repr(e)[:100]))
+        try:
+            from joblib import delayed
+            out2 = p(delayed(pc.task)(2, i) for i in range(w.case["calls"][2]["n"]))
+            rec["overlap"] = ("accepted", list(out2))
+        except RuntimeError as e:
+            rec["overlap"] = ("RuntimeError", str(e)[:60])
+        except BaseException as e:  # noqa
+            rec["overlap"] = ("other", repr(e)[:200])
+        w.ev("overlap_after_exit", rec["overlap"][0])
+        gen.close()
+        rec["outcome"] = {"kind": "closed", "t": s.now}
     elif final == "overlap":
         incomplete = w.cb_started_tasks[c] < call["n"] or w.pulled[c] < call["n"]
         rec["overlap_incomplete"] = incomplete
@@ -262,7 +282,7 @@ def oracle(w, s):
     final = rec.get("final")
     if final in ("exhaust", "overlap", "exhausted_early") and sorted(got) != full:
         return V("missing_results", "exhausted generator yielded %d of %d results" % (len(got), n))
-    if final == "overlap":
+    if final in ("overlap", "exit_overlap"):
         ov = rec.get("overlap")
         if ov and ov[0] == "other":
             return V("overlap_bad_error", "overlapping call raised %s" % (ov[1],))
@@ -272,7 +292,7 @@ def oracle(w, s):
             want2 = [pc.value_of(2, i) for i in range(case["calls"][2]["n"])]
             if (ov[1] != want2) if ordered else (sorted(ov[1]) != want2):
                 return V("overlap_mixed", "accepted overlapping call returned %s" % (ov[1][:10],))
-    if final in ("close", "drop", "drop_other"):
+    if final in ("close", "drop", "drop_other", "exit_overlap"):
         lv = pc.check_leftovers(w, 0)
         if lv:
             return lv
